@@ -44,6 +44,7 @@ struct Gen {
 	int seg_style = 0;                        // 0 whole 1 random chunks 2 bytewise
 	bool creds = false; std::vector<std::string> user_names; std::map<std::string, std::string> user_pw;
 	std::vector<std::string> groups;
+	std::map<std::string, std::map<std::string, std::vector<std::string>>> user_rights;   // user -> kind -> groups (kind absent: the user has no such member)
 	bool allow_rst = true;
 	int max_clients = 6;
 	double p_timeout_param = 0.15;
@@ -327,6 +328,7 @@ struct Gen {
 		std::vector<int> ix; for (size_t i = 0; i < cl.size(); i++) if (cl[i].alive) ix.push_back((int)i);
 		if (ix.size() < 2) return;
 		int oi = ix[r.below(ix.size())], ci = oi; while (ci == oi) ci = ix[r.below(ix.size())];
+		if (r.chance(0.6) && (int)cl.size() < max_clients + 2) { op_connect(); p.ops.back().hold = false; oi = (int)cl.size() - 1; }   // an owner that owns nothing else
 		GClient &ow = cl[(size_t)oi], &ca = cl[(size_t)ci];
 		std::string path = "late/" + std::to_string(++idctr);
 		{ Op po = mk("policy", ow.c); po.a.set("mode", JV::str("result")); po.a.set("delay", JV::num(r.chance(0.5) ? 2000000 : 800000000)); p.ops.push_back(po); }
@@ -356,6 +358,38 @@ struct Gen {
 		{ Op po = mk("policy", ow.c); po.a.set("mode", JV::str("result")); p.ops.push_back(po); }
 	}
 
+	// rights must follow the *current* authentication of the *requesting* peer: re-authenticate as a user with fewer rights, ask on behalf of nobody
+	void pat_rights() {
+		if (!creds || user_names.empty()) return;
+		std::vector<int> ix; for (size_t i = 0; i < cl.size(); i++) if (cl[i].alive) ix.push_back((int)i);
+		if (ix.size() < 2) return;
+		int oi = ix[r.below(ix.size())], ci = oi; while (ci == oi) ci = ix[r.below(ix.size())];
+		GClient &ow = cl[(size_t)oi], &ca = cl[(size_t)ci];
+		// a user with some right, and a group of it
+		std::string A, kind, grp;
+		for (int t = 0; t < 20 && A.empty(); t++) { const std::string &u = user_names[r.below(user_names.size())]; static const char *ks[] = {"fetchGroups", "setGroups", "callGroups"}; const char *k = ks[r.below(3)]; auto it = user_rights[u].find(k); if (it != user_rights[u].end() && !it->second.empty()) { A = u; kind = k; grp = it->second[r.below(it->second.size())]; } }
+		if (A.empty()) return;
+		std::string B; for (int t = 0; t < 20 && B.empty(); t++) { const std::string &u = user_names[r.below(user_names.size())]; if (u == A) continue; auto it = user_rights[u].find(kind); bool has = it != user_rights[u].end() && std::find(it->second.begin(), it->second.end(), grp) != it->second.end(); if (!has) B = u; }
+		auto auth = [&](GClient &g, const std::string &u) { JV pr = JV::obj(); pr.set("user", JV::str(u)); pr.set("password", JV::str(user_pw[u])); emit(g.c, "authenticate", pr); };
+		std::string path = "acl/" + std::to_string(++idctr);
+		bool state = kind != "callGroups";
+		// the owner is authenticated as A (so that its own groups match the element's)
+		if (r.chance(0.7)) auth(ow, A);
+		{ JV pr = JV::obj(); pr.set("path", JV::str(path)); if (state) pr.set("value", fresh_value()); JV acc = JV::obj(); JV ga = JV::arr(); ga.push(JV::str(grp));
+		  acc.set("fetchGroups", kind == "fetchGroups" ? ga : JV::arr().push(JV::str(grp))); acc.set(state ? "setGroups" : "callGroups", ga); pr.set("access", acc); emit(ow.c, "add", pr); owner_of[path] = ow.c; is_state[path] = state; }
+		// the other peer: first with the right, then re-authenticated without it (or never authenticated)
+		if (r.chance(0.6)) auth(ca, A);
+		if (!B.empty() && r.chance(0.8)) auth(ca, B);
+		for (int k = 0; k < 2; k++) {
+			JV pr = JV::obj();
+			double y = r.unit();
+			if (y < 0.4) { emit(ca.c, "get", JV::obj()); }
+			else if (y < 0.6) { JV ru = JV::obj(); ru.set("startsWith", JV::str("acl/")); pr.set("path", ru); emit(ca.c, "get", pr); }
+			else { pr.set("path", JV::str(path)); if (state) pr.set("value", fresh_value()); emit(ca.c, state ? "set" : "call", pr); }
+		}
+		if (r.chance(0.5)) { JV f = JV::obj(); f.set("id", JV::str("af" + std::to_string(++idctr))); emit(ca.c, "fetch", f); ca.fetch_ids.push_back(f.o[0].second); }
+	}
+
 	void setup_creds(JV &hdr) {
 		creds = true;
 		int ng = 1 + (int)r.below(r.chance(0.2) ? 32 : 6);
@@ -369,7 +403,7 @@ struct Gen {
 			u.set("password", JV::str(pw)); user_pw[name] = pw; user_names.push_back(name);
 			static const char *hs[] = {"des", "des", "des", "md5", "md5", "sha256", "sha512"};
 			u.set("hash", JV::str(hs[r.below(r.chance(0.85) ? 5 : 7)]));
-			for (const char *k : {"fetchGroups", "setGroups", "callGroups"}) { if (r.chance(0.15)) { u.put("sparse", JV::boolean(true)); continue; } /* a user may lack a kind of right altogether */ JV a = JV::arr(); int n = (int)r.below(4); for (int j = 0; j < n; j++) a.push(JV::str(groups[r.below(groups.size())])); if (r.chance(0.1)) a.push(JV::str(groups.back())); u.set(k, a); }
+			for (const char *k : {"fetchGroups", "setGroups", "callGroups"}) { if (r.chance(0.15)) { u.put("sparse", JV::boolean(true)); continue; } /* a user may lack a kind of right altogether */ JV a = JV::arr(); int n = (int)r.below(4); for (int j = 0; j < n; j++) a.push(JV::str(groups[r.below(groups.size())])); if (r.chance(0.1)) a.push(JV::str(groups.back())); u.set(k, a); for (auto &x : a.a) user_rights[name][k].push_back(x.s); if (a.a.empty()) user_rights[name][k]; }
 			if (r.chance(0.2)) u.set("admin", JV::boolean(true));
 			if (r.chance(0.2)) u.set("readonly", JV::boolean(true));
 			users.set(name, u);
@@ -520,6 +554,7 @@ Plan gen_base(const std::string &profile, uint64_t seed, const JV &opts) {
 		else if ((profile == "c04" || profile == "c01") && x < 0.26 && i > 1 && g.p.ops.size() < 200) g.pat_collisions();
 		else if ((profile == "c03" || profile == "c05" || profile == "base") && x < 0.262 && i > 1) g.pat_owner_removes_then_caller_leaves();
 		else if ((profile == "c14" || profile == "c03") && x < 0.30 && i > 1) g.pat_double_expiry();
+		else if (profile == "c08" && x < 0.31 && i > 0) g.pat_rights();
 		else if (profile == "c11" && x < 0.33 && !faulty_cs.empty()) {
 			// a fault on a member of the faulty set, or an aborted connection attempt
 			std::vector<int> fc(faulty_cs.begin(), faulty_cs.end()); int c = fc[r.below(fc.size())];
@@ -903,7 +938,7 @@ Plan gen_http(const std::string &profile, uint64_t seed, const JV &opts) {
 	int nws = 1 + (int)r.below(3), nraw = (int)r.below(2);
 	for (int i = 0; i < nraw; i++) g.op_connect(true);
 	struct WsC { int c; bool alive; };
-	std::vector<WsC> ws;
+	std::vector<WsC> ws; std::vector<int> slow;
 	for (int i = 0; i < nws; i++) {
 		HsParts hp = valid_handshake(r);
 		int c = g.next_client++;
@@ -920,7 +955,7 @@ Plan gen_http(const std::string &profile, uint64_t seed, const JV &opts) {
 		g.p.ops.push_back(o);
 		GClient gc; gc.c = c; gc.tr = "ws"; g.cl.push_back(gc);
 		ws.push_back({c, true});
-		if (i > 0 && r.chance(0.15)) { Op wc = g.mk("wcap", c); wc.a.set("n", JV::num((double)(1 + r.below(40)))); g.p.ops.push_back(wc); Op st = g.mk("stall", c); st.a.set("n", JV::num((double)(20 + r.below(200)))); g.p.ops.push_back(st); Op dr = g.mk("resume", c); dr.dt = 1000; g.p.ops.push_back(dr); }
+		if (i > 0 && r.chance(0.2)) { slow.push_back(c); Op st = g.mk("stall", c); st.a.set("n", JV::num((double)(160 + r.below(120)))); g.p.ops.push_back(st); }
 	}
 	int nops = r.chance(0.5) ? 3 + (int)r.below(8) : 8 + (int)r.below(40);
 	for (int i = 0; i < nops; i++) {
@@ -956,6 +991,7 @@ Plan gen_http(const std::string &profile, uint64_t seed, const JV &opts) {
 		else { o.a.set("wsop", JV::num(2)); o.a.set("texthex", JV::str(hexenc(rnd_payload(lens())))); terminal = true; }
 		g.finish_send(o);
 		g.p.ops.push_back(o);
+		if (!slow.empty() && r.chance(0.25)) { int sc = slow[r.below(slow.size())]; Op d = g.mk(r.chance(0.5) ? "drain" : "wcap", sc); d.a.set("n", JV::num((double)(1 + r.below(60)))); g.p.ops.push_back(d); }
 		if (terminal) {
 			w.alive = false; for (auto &gc : g.cl) if (gc.c == w.c) gc.alive = false;
 			for (auto it = g.owner_of.begin(); it != g.owner_of.end();) if (it->second == w.c) it = g.owner_of.erase(it); else ++it;
